@@ -41,12 +41,36 @@ pub struct StepInfo {
 
 /// `m` sits at a boundary and `r` is in sync.  Execute one instruction on both and compare.
 pub fn lockstep(m: &mut Machine, r: &mut Ref, assembly: bool, which: Which) -> (StepEnd, StepInfo) {
+    lockstep_irq(m, r, assembly, which, false)
+}
+
+/// opcodes whose last control word samples the interrupt flip-flop (all but EI, DI, RETI)
+pub fn samples_interrupt(op: u8) -> bool {
+    !((0x08..=0x0F).contains(&op) || (0x2C..=0x2F).contains(&op))
+}
+
+/// `irq`: the key-interrupt flip-flop is pending at this boundary (enable bit set, key pressed): if the
+/// instruction samples it and IEF is set when it ends, the entry sequence is part of the step.
+pub fn lockstep_irq(m: &mut Machine, r: &mut Ref, assembly: bool, which: Which, irq: bool) -> (StepEnd, StepInfo) {
     let up = upcoming(r);
     let before = r.clone();
     r.ram_accesses = 0;
     let pc0 = r.r[3];
-    let out = r.step();
-    let group = group_name(&up);
+    let mut out = r.step();
+    let mut entry_words = 0u32;
+    if irq && out == Outcome::Done && samples_interrupt(up.op) && r.fr & 0x08 != 0 {
+        // entry: push FR, push PC, clear IEF (and the upper bits), PC := 2 — 8 control words
+        r.interrupt_entry();
+        entry_words = 8;
+    }
+    if irq && out == Outcome::Done && up.op >= 0xF0 && up.op2 == 0x2C {
+        // the library drops interrupt status bits when 0x2C is loaded into the IR; with a pending key
+        // press the observable status differs: outside the instruction-level model
+        out = Outcome::Undefined;
+    }
+    // SP supervision (stack size 0): any SP value written on the way, not only the final one
+    let sp_invalid = r.sp >= 0xF0 || r.sp_trace.iter().any(|v| *v >= 0xF0);
+    let group = if entry_words > 0 { format!("{}+irq", group_name(&up)) } else { group_name(&up) };
     let changed = before.r[..3] != r.r[..3] || before.fr != r.fr || before.sp != r.sp || before.ram[..] != r.ram[..] || before.out != r.out;
     let branch = matches!(up.op >> 4, 2) || (up.op & 0xFC == 0x14 && up.op & 3 == 3);
     let mut info = StepInfo {
@@ -110,7 +134,7 @@ pub fn lockstep(m: &mut Machine, r: &mut Ref, assembly: bool, which: Which) -> (
             }
         }
         (Outcome::Done, State::ErrorStopped) => {
-            if r.sp >= 0xF0 {
+            if sp_invalid {
                 (StepEnd::End("sp-supervision"), info)
             } else if which == Which::Semantics {
                 (StepEnd::Mismatch(format!("sem:errstop:{}", group), format!("{} ({:02X} {:02X}): machine error-stopped although model SP={:02X} is valid", group, up.op, up.op2, r.sp)), info)
@@ -126,7 +150,7 @@ pub fn lockstep(m: &mut Machine, r: &mut Ref, assembly: bool, which: Which) -> (
             }
         }
         (Outcome::Done, State::Running) => {
-            if r.sp >= 0xF0 {
+            if sp_invalid {
                 if which == Which::Semantics {
                     return (StepEnd::Mismatch(format!("sem:nosupervision:{}", group), format!("{}: model SP={:02X} invalid but machine still running", group, r.sp)), info);
                 } else {
@@ -153,7 +177,7 @@ pub fn lockstep(m: &mut Machine, r: &mut Ref, assembly: bool, which: Which) -> (
                     return (StepEnd::End("semantic-divergence(C01's subject)"), info);
                 }
                 if let Some(n) = edges {
-                    let words = steps(up.op, up.op2, up.rd, up.rs);
+                    let words = steps(up.op, up.op2, up.rd, up.rs) + entry_words;
                     let exp = words + r.ram_accesses;
                     // steps touching I/O addresses: total bus accesses minus RAM accesses is not tracked by
                     // the model; classify by operand address instead
@@ -190,6 +214,9 @@ pub struct SingleCase {
     pub inp: [u8; 4],
     pub extra: [u8; 3],
     pub assembly: bool,
+    /// key interrupt pending (enable bit set, key pressed) when the instruction starts
+    #[serde(default)]
+    pub irq: bool,
 }
 
 fn first_byte() -> impl Strategy<Value = u8> {
@@ -221,9 +248,9 @@ pub fn single_strategy() -> impl Strategy<Value = SingleCase> {
         any::<u64>(),
         [byte_biased(), byte_biased(), byte_biased(), byte_biased()],
         [byte_biased(), byte_biased(), byte_biased()],
-        any::<bool>(),
+        (any::<bool>(), prop_oneof![3 => Just(false), 1 => Just(true)]),
     )
-        .prop_map(|(op, op2, r, pc, fr, sp, scratch, ram_seed, inp, extra, assembly)| SingleCase {
+        .prop_map(|(op, op2, r, pc, fr, sp, scratch, ram_seed, inp, extra, (assembly, irq))| SingleCase {
             op,
             op2,
             regs: [r[0], r[1], r[2], pc, fr, sp, scratch[0], scratch[1]],
@@ -231,6 +258,7 @@ pub fn single_strategy() -> impl Strategy<Value = SingleCase> {
             inp,
             extra,
             assembly,
+            irq,
         })
 }
 
@@ -279,8 +307,15 @@ pub fn check_single(c: &SingleCase, which: Which) -> (Verdict, Option<StepInfo>)
         Some(m) => m,
         None => return (Verdict::Fail("setup:noboundary".into(), "machine did not reach its first boundary".into()), None),
     };
+    // (the opcode at PC is already latched at the boundary: a key press must not change what is read
+    // there, so no key press when the opcode itself comes from the status register 0xF9)
+    let irq = c.irq && c.regs[3] != 0xF9;
+    if irq {
+        m.raw_mut().bus_mut().write(0xF9, 0x01);
+        m.trigger_key_interrupt();
+    }
     let mut r = model_of(&st, &m);
-    let (end, info) = lockstep(&mut m, &mut r, c.assembly, which);
+    let (end, info) = lockstep_irq(&mut m, &mut r, c.assembly, which, irq);
     match end {
         StepEnd::Mismatch(sig, d) => (Verdict::Fail(sig, d), Some(info)),
         _ => (Verdict::Pass, Some(info)),
